@@ -256,6 +256,7 @@ def build_stack(world, wspec):
     if stack == "retrying_stub":
         rk = {k: codec.dec(v) for k, v in (wspec.get("retry_kwargs") or {}).items()}
         stub = (ScriptedChild if wspec.get("stub_inherits") else ScriptedClient)(wspec.get("script") or [])
+        stub.falsy = bool(wspec.get("stub_falsy"))
         world.stub = stub
         return _retry_mod.RetryingClient(stub, **rk)
     if stack == "retrying":
@@ -294,7 +295,9 @@ class ScriptedClient:
         i = len(self.calls) - 1
         o = self.script[i] if i < len(self.script) else "ok"
         if o == "ok":
-            r = codec.Sentinel("result-%d" % i)
+            # a successful result: an opaque object - or, when asked for, a falsy one (a fresh empty list, so that
+            # "returned unchanged" can still be checked by identity)
+            r = [] if getattr(self, "falsy", False) else codec.Sentinel("result-%d" % i)
             self.produced.append(r)
             return r
         e = codec.exc_class(o)("scripted failure %d" % i)
@@ -483,6 +486,32 @@ def resolve_refs(j, res):
     return j
 
 
+_PKG_LOGGER = logging.getLogger("pymemcache")
+_PKG_LOGGER.addHandler(logging.NullHandler())
+_PKG_LOGGER.propagate = False
+
+
+def _set_debug_logging(on):
+    """Log records of the package are formatted and dropped (NullHandler): what matters is that the logging calls
+    and their `isEnabledFor` branches run as they do in an application that has DEBUG logging switched on."""
+    if on:
+        logging.disable(logging.NOTSET)
+        _PKG_LOGGER.setLevel(logging.DEBUG)
+        if not any(isinstance(h, _FormattingSink) for h in _PKG_LOGGER.handlers):
+            _PKG_LOGGER.addHandler(_FormattingSink())
+    else:
+        _PKG_LOGGER.setLevel(logging.NOTSET)
+        logging.disable(logging.CRITICAL)
+
+
+class _FormattingSink(logging.Handler):
+    def emit(self, record):
+        try:
+            record.getMessage()          # lazy %-formatting happens here, as in any real handler
+        except Exception:
+            pass                         # logging never propagates formatting errors to the application
+
+
 def _mutate_in_place(v):
     if isinstance(v, list):
         v.append("dirty")
@@ -505,6 +534,8 @@ def execute(scn, hooks=()):
     _userserde._Cur.world = world
     knobs = wspec.get("knobs") or {}
     _base.RECV_SIZE = knobs.get("recv_size", DEFAULT_RECV_SIZE)
+    if knobs.get("log_debug"):
+        _set_debug_logging(True)      # the application runs with DEBUG logging for the package (a configuration knob)
     res = Result()
     res.world = world
     if wspec.get("check_timeouts"):
@@ -515,6 +546,8 @@ def execute(scn, hooks=()):
 
         def _build():
             res.client = build_stack(world, wspec)
+            if isinstance(getattr(res.client, "caches", None), list):
+                res.extra["orig_caches"] = list(res.client.caches)      # as configured (see "recache" steps)
             # other client objects living in the same process (steps address them with "by": index)
             res.bystanders = [build_stack(world, b) for b in wspec.get("bystanders") or ()]
             return None
@@ -593,6 +626,8 @@ def execute(scn, hooks=()):
                         f(world, res, i, st)
     finally:
         _base.RECV_SIZE = DEFAULT_RECV_SIZE
+        if knobs.get("log_debug"):
+            _set_debug_logging(False)
     _finish(res, scn)
     return res
 
